@@ -311,6 +311,12 @@ def run_lines(exe, lines, shards=NCPU, timeout=1500, args=None, env=None):
         t.start()
     for t in ths:
         t.join()
+    if os.environ.get("VERIF_INJECT_CRASH") and outs and outs[-1]:
+        # self-test of the machinery (tools/selftest_crash.sh): pretend that the process of the last shard died
+        # half-way; a check must then report a violation, never count the missing answers as agreement
+        o = outs[-1]
+        k = len(o) // 2
+        outs[-1] = o[:k] + ["TOOL-CRASH(rc=-9 injected)"] * (len(o) - k)
     return [x for o in outs for x in o]
 
 
@@ -399,6 +405,8 @@ class Run:
             self.cov["samples"] = ["(none)"]
         # runs against a private copy of the repository (seeded changes) never touch the evidence of /repo
         evdir = os.path.join(ALT, "evidence") if ALT else os.path.join(ROOT, "evidence")
+        if os.environ.get("VERIF_INJECT_CRASH"):
+            evdir = os.path.join(BUILD, "inject", "evidence")
         os.makedirs(evdir, exist_ok=True)
         json.dump(ev, open(os.path.join(evdir, self.prop + ".json"), "w"), indent=1, default=str)
         return 1 if self.violations else 0
